@@ -66,6 +66,9 @@ def depth(e):
 # ------------------------------------------------------------------ generator
 def gen_lit(rng):
     r = rng.random()
+    if r < 0.04:
+        # integer literals beyond 2**53: the literal denotes the nearest float
+        return str(rng.choice([2 ** 53, 10 ** 16, 10 ** 17 - 1, 10 ** 20, 3 ** 40]) + rng.randint(0, 3))
     if r < 0.25:
         return rng.choice(["0", "1", "2", "3", "0.5", "10"])
     s = "".join(rng.choice("0123456789") for _ in range(rng.randint(1, 3)))
@@ -142,6 +145,10 @@ class ParseError(Exception):
     pass
 
 
+class Adjacent(Exception):
+    """two operands with no operator between them (a deleted binary operator): `(1+2)(3+4)`, `sin(1)cos(1)`, `2 3`"""
+
+
 def lex(text):
     toks, i = [], 0
     while i < len(text):
@@ -186,6 +193,11 @@ class Parser:
     def sym(self):
         p = self.peek()
         return p[1] if p and p[0] == "sym" else None
+
+    def operand_starts(self):
+        """the next token begins an operand: a literal, a parenthesis / call, or `!`"""
+        p = self.peek()
+        return p is not None and (p[0] == "lit" or p[1] in SYM_F1 or p[1] in SYM_F2 or p[1] == "!")
 
     def operand_missing(self, after_operator):
         """called where an operand must start"""
@@ -256,6 +268,8 @@ class Parser:
                     continue
                 break
             if self.sym() != ")":
+                if self.operand_starts() and args[-1] is not None:
+                    raise Adjacent()
                 raise ParseError()
             self.i += 1
             narg = 1 if s in SYM_F1 else 2
@@ -271,7 +285,7 @@ class Parser:
 
 
 def classify(text):
-    """-> (class, ast): wf / unbalanced / arity / missing / other"""
+    """-> (class, ast): wf / unbalanced / arity / missing / adjacent / other"""
     if unbalanced(text):
         return "unbalanced", None
     toks = lex(text)
@@ -281,9 +295,13 @@ def classify(text):
     try:
         e = p.or_(False)
         if p.peek() is not None:
+            if p.operand_starts():
+                raise Adjacent()
             raise ParseError()
     except Missing:
         return "missing", None
+    except Adjacent:
+        return "adjacent", None
     except ParseError:
         return "other", None
     except RecursionError:
@@ -428,9 +446,24 @@ def eval_postfix_float(pf):
     return st[-1]
 
 
+def num_kind(v):
+    """bool / int / float / complex: a literal denotes a float, `99999999999999999` is the float nearest to it"""
+    import numpy as np
+    if isinstance(v, (bool, np.bool_)):
+        return "bool"
+    if isinstance(v, (int, np.integer)):
+        return "int"
+    if isinstance(v, (float, np.floating)):
+        return "float"
+    if isinstance(v, (complex, np.complexfloating)):
+        return "complex"
+    return type(v).__name__
+
+
 class Val:
-    """outcome of a float computation; equality is VALUE equality (True == 1 == 1.0, nan == nan);
-    the type is not compared: folding `--x` returns x itself (bool False) where negating twice gives int 0"""
+    """outcome of a float computation; equality is equality of the VALUE (nan == nan) and of the numeric kind
+    (bool / int / float / complex; np.float64 counts as float).  Both sides apply the same operations to the same
+    operand kinds (the specification term is evaluated after the neg-neg law was applied), so kinds agree."""
 
     def __init__(self, v):
         self.v = v
@@ -441,6 +474,8 @@ class Val:
         a, b = self.v, other.v
         if a is None or b is None:
             return a is None and b is None
+        if num_kind(a) != num_kind(b):
+            return False
         try:
             if a != a and b != b:
                 return True
@@ -452,7 +487,7 @@ class Val:
         return not self.__eq__(other)
 
     def __repr__(self):
-        return "ok(%r)" % (self.v,)
+        return "ok(%s %r)" % (num_kind(self.v), self.v)
 
 
 def float_outcome(f):
